@@ -150,7 +150,7 @@ class MergeConsecutiveOp(BaseOp):
                 in_group = True
                 group_count += 1
                 continue
-            if in_group and row.equals(match_df.loc[index - 1, :]):
+            if in_group and match_df.loc[index, :].equals(match_df.loc[index - 1, :]):
                 remove_groups[index] = group_count
             else:
                 group_count += 1
